@@ -868,6 +868,45 @@ func runC12(c *Ctx) {
 			sites := deepCallsTo(fn, helper)
 			good := len(sites) > 0
 			why := spec.method + " does not reach " + spec.helper
+			if len(sites) == 0 {
+				// siblings merged into one function that receives the per-family operation as a function value
+				// (filterSource(multicastIP, sourceIP, (*UDPPeer).blockIPv4, ...)): judged at the call of that parameter
+				for _, hc := range allCalls(fn) {
+					h2 := hc.Call.StaticCallee()
+					if !isHelperOf(fn, h2) {
+						continue
+					}
+					for k, a := range hc.Call.Args {
+						af, isFn := strip(a).(*ssa.Function)
+						if !isFn || k >= len(h2.Params) || !(af == helper || (af.Object() != nil && af.Object() == helper.Object())) {
+							continue
+						}
+						eachInstr(h2, func(in ssa.Instruction) {
+							dc, ok := in.(*ssa.Call)
+							if !ok || stripConv(dc.Call.Value) != ssa.Value(h2.Params[k]) || len(dc.Call.Args) != len(helper.Params) {
+								return
+							}
+							good = true
+							h2ByName := map[string]int{}
+							for i, q := range h2.Params {
+								h2ByName[pinParamName(q)] = i
+							}
+							for i, q := range helper.Params {
+								name := pinParamName(q)
+								if name != "multicastIP" && name != "sourceIP" {
+									continue
+								}
+								j, has := h2ByName[name]
+								src := byName[name]
+								if !has || src == nil || j >= len(hc.Call.Args) || !dependsOnLoose(dc.Call.Args[i], h2.Params[j]) || !dependsOnLoose(hc.Call.Args[j], src) {
+									good = false
+									why = "the " + name + " handed to " + spec.helper + " (through " + fnName(h2) + ") is not derived from the " + name + " argument of " + spec.method
+								}
+							}
+						})
+					}
+				}
+			}
 			for _, dc := range sites {
 				for i, q := range helper.Params {
 					name := pinParamName(q)
